@@ -11,7 +11,7 @@ RULE = ('A real BP agent with one transmit route whose MTU is drawn relative to 
         'size, header+{1,2,3,12,23,24,25,255,256,257}, 64..70000) sends a bundle that is either originated locally '
         '(Agent.send_bundle on a container built field by field) or received and forwarded.  Payload lengths sit on '
         'the CBOR head boundaries 23/24, 255/256, 65535/65536 +-1 (and random), CRC type per block, 0-3 extension blocks '
-        'with and without the replicate flag (alone or next to other block processing flags), flags NO_FRAGMENT / already-a-fragment on or off.  A grid payload length x '
+        'with and without the replicate flag (alone or next to other block processing flags), flags NO_FRAGMENT / already-a-fragment on or off, optionally a BIB or BCB policy over the payload at the fragmenting node (the security block is added before the fragmentation step).  A grid payload length x '
         'MTU offset x CRC x replicate is enumerated.  Oracle on the byte strings handed to the convergence layer, parsed '
         'independently: if the bundle may and must be fragmented and a fragment with one payload octet fits (feasible, '
         'computed with the independent encoder): every string <= MTU, fragments carry identity + fragment flag + own '
@@ -61,7 +61,10 @@ def cases(draw):
             'mtu_abs': draw(st.sampled_from([64, 100, 300, 1000, 9000, 70000])),
             'src': draw(strat.eids(allow_none=False)), 'dest': draw(st.sampled_from([['dtn', '//far/away'], ['ipn', 300, 70000]])),
             'ts': [draw(st.sampled_from([1, 24, 1000, 2 ** 32, 789004000000])), draw(st.sampled_from([0, 23, 24, 300]))],
-            'flags': draw(strat.flag_sets(strat.REPORT_FLAGS))}
+            'flags': draw(strat.flag_sets(strat.REPORT_FLAGS)),
+            # a security policy at this node: the integrity / confidentiality block over the payload is added by the
+            # transmit chain before the fragmentation step
+            'policy': draw(st.sampled_from([None, None, None, 'bib', 'bcb']))}
 
 
 def strategy(tier):
@@ -69,6 +72,8 @@ def strategy(tier):
 
 
 def enumerate_cases(tier):
+    for case in _policy_cases(tier):
+        yield case
     lengths = [24, 256, 1000] if tier == 'quick' else [1, 23, 24, 255, 256, 1000, 65535, 65536]
     offsets = [-1, 0, 1, 2, 3, 12, 24, 256] if tier == 'quick' else [-5, -1, 0, 1, 2, 3, 12, 23, 24, 25, 255, 256, 257, 1000]
     for mode, plen, off, crc, repl in itertools.product(('originate', 'forward'), lengths, offsets, (0, 1, 2), (False, True)):
@@ -77,6 +82,14 @@ def enumerate_cases(tier):
                        {'repl': not repl, 'crc': 0, 'kind': 'hop', 'dlen': 0, 'xflags': 0x10 if crc == 2 else 0}],
                'no_fragment': False, 'is_fragment': False, 'mtu_kind': 'header', 'mtu_off': off, 'mtu_abs': 0,
                'src': ['dtn', '//src/'], 'dest': ['dtn', '//far/away'], 'ts': [1000, 1], 'flags': 0}
+
+
+def _policy_cases(tier):
+    for mode, policy, plen, off in itertools.product(('originate', 'forward'), ('bib', 'bcb'), (256, 1000), (3, 24, 256)):
+        yield {'mode': mode, 'plen': plen, 'pseed': 1, 'pcrc': 1, 'ycrc': 1,
+               'ext': [{'repl': True, 'crc': 0, 'kind': 'unknown', 'dlen': 3, 'xflags': 0}],
+               'no_fragment': False, 'is_fragment': False, 'mtu_kind': 'header', 'mtu_off': off, 'mtu_abs': 0,
+               'src': ['dtn', '//src/'], 'dest': ['dtn', '//far/away'], 'ts': [1000, 1], 'flags': 0, 'policy': policy}
 
 
 def pinned_cases():
@@ -135,24 +148,47 @@ def execute(case):
     wire = r.encode(bundle)
     total = case['plen']
     mode = case['mode']
-    node = bw.Node(NODE, rx_routes=[('.*', 'forward')], tx_routes=[('.*', 'dtn://next/', None)])
+    policy = case.get('policy')
+    plain_bundle = bundle
+
+    def make_node():
+        from vlib import bpsec_util as bu
+        made = bw.Node(NODE, rx_routes=[('.*', 'forward')], tx_routes=[('.*', 'dtn://next/', None)])
+        if policy == 'bib':
+            bu.give_key(made, 'k-mac-1', 5, 'mac')
+            bu.add_policy(made, 'bib', 'k-mac-1', [1])
+        elif policy == 'bcb':
+            bu.give_key(made, 'k-enc-1', 3, 'enc')
+            bu.add_policy(made, 'bcb', 'k-enc-1', [1], ivs=[b'\x33' * 12])
+        return made
+    node = make_node()
     # what the bundle looks like when it reaches the fragmentation step
-    if mode == 'forward':
-        err = node.receive(wire)
+    if mode == 'forward' or policy:
+        err = node.receive(wire) if mode == 'forward' else node.send(BundleContainer(bpconv.to_repo(bundle)))
         if err is not None:
-            out.fail('receive-raises', 'receiving raised %s' % err)
+            out.fail('receive-raises' if mode == 'forward' else 'probe-send-raises', 'the unfragmented probe run raised %s' % err)
             return out
         probe = [d for d in node.sent()]
         if len(probe) != 1:
-            out.fail('probe-forward', 'unfragmented forwarding produced %d bundles' % len(probe))
+            out.fail('probe-forward', 'the unfragmented probe run produced %d bundles' % len(probe))
             return out
         sent_form = r.strip(r.decode(probe[0]))
         unfrag_size = len(probe[0])
         bw.reset()
-        node = bw.Node(NODE, rx_routes=[('.*', 'forward')], tx_routes=[('.*', 'dtn://next/', None)])
+        node = make_node()
     else:
         sent_form = r.strip(r.decode(wire))
         unfrag_size = len(wire)
+    if policy:
+        out.label('policy:' + policy)
+        if case.get('is_fragment'):
+            out.label('policy-on-a-fragment')     # whether a fragment gets security blocks is not C05's business
+        elif not [b for b in sent_form['blocks'] if b['type'] == (11 if policy == 'bib' else 12)]:
+            out.fail('policy-not-applied', 'the %s policy added no security block in the probe run' % policy)
+            return out
+        # what is fragmented is the payload as it leaves the security step (ciphertext under a BCB policy)
+        bundle = dict(bundle, blocks=bundle['blocks'][:-1] + [dict(bundle['blocks'][-1], data=sent_form['blocks'][-1]['data'])])
+        total = len(sent_form['blocks'][-1]['data']) // 2
     head_first, head_later = header_sizes(sent_form, total)
     kind = case['mtu_kind']
     if kind == 'none':
@@ -171,7 +207,7 @@ def execute(case):
     if mode == 'forward':
         err = node.receive(wire)
     else:
-        err = node.send(BundleContainer(bpconv.to_repo(bundle)))
+        err = node.send(BundleContainer(bpconv.to_repo(plain_bundle)))
     emitted = []
     for data in node.sent():
         try:
@@ -196,7 +232,7 @@ def execute(case):
                      % (len(emitted), where, err))
             return out
         data, dec = emitted[0]
-        if mode == 'originate' and data != wire:
+        if mode == 'originate' and not policy and data != wire:
             out.fail('unfragmented-altered', 'bundle that needs no fragmentation was altered (%s)' % where)
         if dec['primary']['flags'] != bundle['primary']['flags'] or dec['primary']['frag'] != bundle['primary']['frag'] \
                 or r.payload_block(dec)['data'] != bundle['blocks'][-1]['data']:
